@@ -13,6 +13,12 @@ use std::time::Instant;
 
 pub const VERIF_ROOT: &str = "/verif";
 
+/// where evidence and found cases are written (a scratch directory when the checks are run against
+/// a modified copy of the repository: VERIF_OUT)
+pub fn out_root() -> String {
+    std::env::var("VERIF_OUT").unwrap_or_else(|_| VERIF_ROOT.to_string())
+}
+
 #[derive(Debug, Clone)]
 pub struct Failure {
     /// classifier key (line-independent) used to match known findings
@@ -561,7 +567,7 @@ impl Run {
         if self.violations.iter().filter(|v| v.check == check).count() >= 1 {
             return true;
         }
-        let dir = PathBuf::from(format!("{VERIF_ROOT}/found/{}", self.property));
+        let dir = PathBuf::from(format!("{}/found/{}", out_root(), self.property));
         let _ = std::fs::create_dir_all(&dir);
         let h = fnv(case.to_string().as_bytes());
         let path = dir.join(format!("{}-{:08x}.json", check, h as u32));
@@ -573,7 +579,7 @@ impl Run {
     }
 
     fn add_violation(&mut self, check: &str, bytes: Vec<u8>, fl: Failure) {
-        let dir = PathBuf::from(format!("{VERIF_ROOT}/found/{}", self.property));
+        let dir = PathBuf::from(format!("{}/found/{}", out_root(), self.property));
         let _ = std::fs::create_dir_all(&dir);
         let h = fnv(&bytes) ^ fnv(check.as_bytes());
         let path = dir.join(format!("{}-{:08x}.json", check, h as u32));
@@ -695,7 +701,7 @@ impl Run {
             "wall_s": (wall * 1000.0).round() / 1000.0,
             "violations": self.violations.len(),
         });
-        let evdir = format!("{VERIF_ROOT}/evidence");
+        let evdir = format!("{}/evidence", out_root());
         let _ = std::fs::create_dir_all(&evdir);
         if std::env::var("VERIF_NO_EVIDENCE").is_err() {
             let name = match std::env::var("VERIF_EVIDENCE_TAG") {
